@@ -306,7 +306,8 @@ func (bs *BlockStore) PruneBlocks(height int64) (uint64, error) {
 
 		// flush every 1000 blocks to avoid batches becoming too large
 		if pruned%1000 == 0 && pruned > 0 {
-			err := flush(batch, h)
+			// blocks up to and including h are in the batch: the new base is h+1
+			err := flush(batch, h+1)
 			if err != nil {
 				return 0, err
 			}
